@@ -47,14 +47,11 @@ _PROGS = {}
 
 
 def keys_for(d, pid):
-    if d not in _PROGS:
-        try:
-            fd, _ = get_facts(d, 'A')
-            _PROGS[d] = Program(fd, 'A')
-        except ExtractError as e:
-            _PROGS[d] = 'does not compile: ' + str(e)[-200:]
-    P = _PROGS[d]
-    if isinstance(P, str):
+    # a fresh Program per (tree, property), exactly as ./check does (expression caches are per process there)
+    try:
+        fd, _ = get_facts(d, 'A')
+        P = Program(fd, 'A')
+    except ExtractError as e:
         return None
     mod = importlib.import_module('rules.%s' % pid)
     ctx = Ctx(pid, 'quick', 0, {'A': P}, {})
